@@ -66,16 +66,30 @@ EditReasons(r) ==
                \cup (IF r.after_utf8 THEN {} ELSE {"file-not-utf8"}))
 
 \* ---- C06, `rewrite` transformations ---------------------------------------------
+\* The value is stored through MetaVarEnv::insert_transformation, which removes the indentation of the line the
+\* captured text starts on from every continuation line (so that a template can indent it again - C07's matter).
+\* A multi-line result is therefore compared with the indentation of continuation lines removed on both sides.
+RECURSIVE StripIndentFrom(_, _, _)
+StripIndentFrom(bs, i, atLineStart) ==
+    IF i > Len(bs) THEN <<>>
+    ELSE IF atLineStart /\ bs[i] = 32 THEN StripIndentFrom(bs, i + 1, TRUE)
+    ELSE <<bs[i]>> \o StripIndentFrom(bs, i + 1, bs[i] = 10)
+StripIndent(bs) == StripIndentFrom(bs, 1, FALSE)
 RewriteReasons(r) ==
     LET old == SubSeq(r.src, r.cs + 1, r.ce)
-        es == RewriteEdits(r.cands) IN
+        es == RewriteEdits(r.cands)
+        acc == AcceptedFrom(es, 1, 0, r.cs) IN
     (IF r.has_out THEN {} ELSE {"rewrite-produced-nothing"})
     \cup (IF r.out_utf8 THEN {} ELSE {"rewrite-not-utf8"})
     \cup (IF ~r.has_out THEN {}
-          ELSE IF r.join THEN (IF r.out = RewriteJoin(es, r.cs, r.joiner) THEN {} ELSE {"rewrite-joined-text"})
-          ELSE IF RewriteP(old, es, r.cs, r.out) THEN {} ELSE {"rewrite-text-not-capture-with-edits-substituted"})
+          ELSE IF r.join THEN (IF StripIndent(r.out) = StripIndent(RewriteJoin(es, r.cs, r.joiner)) THEN {} ELSE {"rewrite-joined-text"})
+          ELSE IF /\ \A k \in 1..Len(acc) : InBounds(Len(old), acc[k])
+                  /\ OrderedDisjoint(acc)
+                  /\ StripIndent(r.out) = StripIndent(Splice(old, acc))
+               THEN {} ELSE {"rewrite-text-not-capture-with-edits-substituted"})
 RewriteDrift(r) ==
-    IF r.has_out /\ ~r.join /\ r.out # RewriteSplice(SubSeq(r.src, r.cs + 1, r.ce), RewriteEdits(r.cands), r.cs) THEN {"rewrite-splice-model"} ELSE {}
+    IF r.has_out /\ ~r.join /\ StripIndent(r.out) # StripIndent(RewriteSplice(SubSeq(r.src, r.cs + 1, r.ce), RewriteEdits(r.cands), r.cs))
+    THEN {"rewrite-splice-model"} ELSE {}
 
 Reasons(r) == IF r.mode = "tpl" THEN TplReasons(r) ELSE IF r.mode = "rewrite" THEN RewriteReasons(r) ELSE EditReasons(r)
 Drift(r)   == IF r.mode = "tpl" THEN TplDrift(r) ELSE IF r.mode = "rewrite" THEN RewriteDrift(r) ELSE {}
